@@ -170,6 +170,10 @@ def rule_r2(rep):
             ev = _evaluator(a["body"], lhs[0]) if lhs else set()
             allowed = spec.get((ops[0], k1))
             n_rows += 1
+            casts = sorted({n["ty"] for n in tab.walk(a["body"]) if n.get("k") == "Cast" and re.fullmatch(r"u8|u16|u32|i8|i16|i32|usize", n.get("ty", ""))})
+            rep.ob("R2-fold-no-truncating-cast", f"combine_binary_op:{ops[0]}:{k1}", not casts, CONSTS, a["l"],
+                   f"IR constant folding of {ops[0]} narrows an operand with `as {casts[0] if casts else ''}`: high bits are dropped silently and the folded constant differs from "
+                   "what the VM computes (e.g. a shift amount of 2^32 + 2); use a checked conversion that declines to fold")
             rep.ob("R2-fold-evaluator", f"combine_binary_op:{ops[0]}:{k1}",
                    allowed is not None and len(ev) == 1 and ev <= allowed, CONSTS, a["l"],
                    f"IR constant folding of {ops[0]} on {k1} uses {sorted(ev)}; allowed: {sorted(allowed or [])}")
